@@ -84,6 +84,8 @@ inductive Frame
 def frame (first5 : Bs) : Frame :=
   let code := first5.getD 0 0 / 16 * 16
   if code ≠ 0xF0 ∧ code ≠ 0x20 then .reject else
+  -- CONNACK and AUTH carry no flags: reserved bits of the first byte must be zero
+  if first5.getD 0 0 % 16 ≠ 0 then .malformed else
   match Dec.varint ⟨first5, minPacketSz⟩ 1 minPacketSz with
   | .ok varlen p =>
     -- remain_len = varlen - distance(varlen_ptr, begin + num_read)
@@ -108,6 +110,7 @@ def handshake (rx : Bs) : HsVerdict :=
     if code ≠ 0x20 then .malformed else       -- AUTH without a configured authentication method
     match Dec.decodeConnack ⟨rx.take (minPacketSz + remain), minPacketSz + remain⟩ first len with
     | .ok (sp, rc, ps) _ =>
+      if sp > 1 then .malformed else             -- bits 7-1 of the Connect Acknowledge Flags are reserved
       if !Verdict.admitted .connack rc then .malformed
       else if rc ≥ 0x80 then .retry else .established sp ps
     | _ => .malformed
